@@ -312,6 +312,21 @@ func runC15(c *Ctx) {
 			c.Check(okPut, "C15.2", FuncName(fn), "deferred-put:"+N(poolFld), call.Pos(),
 				"returning the object to its own pool is deferred on every path (also after a Reset error)",
 				"a path leaves the function without the pooled object's Put having been deferred: "+witnessString(p, path2))
+			// ... and the deferred Put is the only one: an additional explicit Put of the same
+			// object (on an error path, 'to be tidy') returns it twice, and the next two RPCs
+			// share one (de)compressor (seed C14j)
+			extra := ""
+			for _, pc := range Calls(fn) {
+				if _, isDefer := pc.(*ssa.Defer); isDefer || !IsCallTo(pc, "(*sync.Pool).Put") {
+					continue
+				}
+				if fa2, ok := pc.Common().Args[0].(*ssa.FieldAddr); ok && FieldOfAddr(fa2) == poolFld && fromGet(pc.Common().Args[1]) {
+					extra = p.Pos(pc.Pos())
+				}
+			}
+			c.Check(extra == "", "C15.2", FuncName(fn), "put-exactly-once:"+N(poolFld), call.Pos(),
+				"the object is returned to the pool by the deferred Put alone",
+				"besides the deferred Put the object is also put back explicitly ("+extra+"): on that path it enters the pool twice and two later RPCs are handed the same object - one resets it while the other is still reading from it")
 		}
 	}
 	// (c) who may touch the pools
